@@ -88,7 +88,12 @@ def node_s(depth):
         return st.fixed_dictionaries({**base, "deps": st.just([])})
     dep = st.fixed_dictionaries(
         {"dname": st.sampled_from(["#dep", "#app", "#radio.suit"]), "how": st.sampled_from(["inline", "path"]), "ref_alg": G.hash_s,
-         "digest": st.booleans(), "size": st.booleans(), "abs": st.booleans(), "node": node_s(depth - 1)}
+         "digest": st.booleans(), "size": st.booleans(), "abs": st.booleans(), "node": node_s(depth - 1),
+         # a dependency FILE is given, not made: it may be a valid envelope that the tool itself would not write this way (stale wrapper digest, members
+         # in another order) and must still be embedded byte for byte ...
+         "variant": st.sampled_from(["created", "created", "stale-digest", "reordered"]),
+         # ... and the file that {envelope: <path>} names for digest/size may have a bare name made of hex digits (a copy in the working directory)
+         "hexref": st.sampled_from([None, None, "c0ffee", "DEADBEEF", "0123", "ab"])}
     )
     return st.fixed_dictionaries({**base, "deps": st.lists(dep, max_size=2, unique_by=lambda d: d["dname"])})
 
@@ -190,7 +195,16 @@ class Builder:
                 full = os.path.join(self.root, rel)
                 ref = full if dep["abs"] else rel
                 cexp["path_file"] = full
+                cexp["variant"] = dep.get("variant", "created")
+                if cexp["variant"] != "created":
+                    self.forms.add("dep-file:" + cexp["variant"])
             deps[dep["dname"]] = ref
+            if dep["how"] == "path" and dep.get("hexref") and level == 1 and (dep["digest"] or dep["size"]) and not os.path.exists(os.path.join(self.root, dep["hexref"])):
+                # parameters refer to a copy of the file under a bare hex-digit name, relative to the working directory
+                cexp["copy_as"] = os.path.join(self.root, dep["hexref"])
+                open(cexp["copy_as"], "wb").close()
+                ref = dep["hexref"]
+                self.styles.add("hexlike-envelope-ref")
             cexp["standalone_desc"] = cdesc
             exp["children"][dep["dname"]] = cexp
             p = {}
@@ -235,8 +249,25 @@ def create_children_by_path(exp, root):
             import copy
 
             data = sut.create_mem(copy.deepcopy(cexp["standalone_desc"]))
+            data = file_variant(data, cexp.get("variant", "created"))
             with open(cexp["path_file"], "wb") as fh:
                 fh.write(data)
+            if cexp.get("copy_as"):
+                with open(cexp["copy_as"], "wb") as fh:
+                    fh.write(data)
+
+
+def file_variant(data, variant):
+    """Another valid encoding of the same envelope, as a file delivered by someone else may look."""
+    if variant == "created":
+        return data
+    t = cb.loads(data)
+    if variant == "reordered":
+        return cb.enc(cb.Tag(107, cb.Pairs(reversed(list(t.value)))))
+    auth = cb.loads(t.value.get(2))
+    dig = cb.loads(auth[0])
+    stale = cb.enc([cb.enc([dig[0], bytes(b ^ 0xFF for b in dig[1])])] + list(auth[1:]))
+    return cb.enc(cb.Tag(107, cb.Pairs((k, stale if k == 2 else v) for k, v in t.value)))
 
 
 # ------------------------------------------------------------------------------------------------
@@ -313,8 +344,16 @@ def check_node(data, exp, path, problems, stats):
             alone = sut.create_mem(copy.deepcopy(cexp["standalone_desc"]))
         if emb != alone:
             problems.append(f"{path}: dependency {name} is not embedded byte-identically to what creating it on its own produces")
-        problems += check_envelope(emb, None, f"{path}/{name}")  # child's own digests under the child's algorithm
+        stale = set(_stale_paths({"children": {name: cexp}}, path))
+        problems += [p for p in check_envelope(emb, None, f"{path}/{name}") if not any(p.startswith(sp + ": manifest digest") for sp in stale)]  # child's own digests
         check_node(emb, cexp, f"{path}/{name}", problems, stats)
+
+
+def _stale_paths(exp, path):
+    for name, cexp in exp["children"].items():
+        if cexp.get("variant") == "stale-digest":
+            yield f"{path}/{name}"
+        yield from _stale_paths(cexp, f"{path}/{name}")
 
 
 def _fmt(v):
@@ -355,7 +394,8 @@ def judge(case, acc, ctx):
                             bucket=f"reject:{type(raised).__name__}")
         problems, stats = [], {}
         check_node(data, exp, "$", problems, stats)
-        problems += check_envelope(data, desc)
+        stale = set(_stale_paths(exp, "$"))  # dependency files handed over with a wrapper digest that is wrong on purpose: embedded as they are
+        problems += [p for p in check_envelope(data, desc) if not any(p.startswith(sp + ": manifest digest") for sp in stale)]
         for k, v in stats.items():
             acc.note(f"checked_{k}", v)
         if problems:
@@ -420,7 +460,7 @@ def finalize(ctx, m, ev):
     c = m["counters"]
     ev["coverage"]["excluded_known"] = {"F9": c.get("excluded_known:F9", 0)}
     need = ["digest:file", "digest:file_direct", "digest:raw", "digest:envelope", "size:file", "size:file_direct", "size:raw", "size:envelope",
-            "payload:path", "payload:hex", "dep:inline", "dep:path", "wrapper-digest:file", "wrapper-digest:file_direct", "wrapper-digest:raw", "depth:3", "style:abs", "style:rel", "style:hexlike-name", "route:json", "route:yaml"]
+            "payload:path", "payload:hex", "dep:inline", "dep:path", "wrapper-digest:file", "wrapper-digest:file_direct", "wrapper-digest:raw", "depth:3", "style:abs", "style:rel", "style:hexlike-name", "style:hexlike-envelope-ref", "dep-file:stale-digest", "dep-file:reordered", "route:json", "route:yaml"]
     for n in need:
         if not c.get(n):
             raise boot.HarnessError(f"interesting class {n} is empty")
